@@ -303,6 +303,9 @@ inductive Acc
   /-- field `i` of variant `v` of an enum: the `Option<Subfield>` accessor `variant_field()` that
   `derive(Store)` generates for enums -/
   | var (v i : Nat)
+  /-- only at the head of a chain: start from the long-lived `Field` / `ArcField` handle number `id`
+  (`St.handles`), whose `path()` was fixed when it was created -/
+  | h (id : Nat)
 deriving DecidableEq, Repr
 
 /-- the path segment `derive(Store)` gives field `i` of an enum variant: its index within the variant
@@ -355,6 +358,8 @@ structure St where
   effs : List Eff
   log : List (Nat × Seen)
   panicked : Bool
+  /-- long-lived handles: the accessor chain that was converted (`.into()`) and the `path()` it had then -/
+  handles : List (Chain × Path) := []
 
 def St.init (v : Val) : St := { val := v, keys := [], subs := [], effs := [], log := [], panicked := false }
 
@@ -437,6 +442,7 @@ def stepAccG (old : Bool) (sw : St × Walk) (a : Acc) : St × Walk :=
                   tr := w.un ++ triggersForPath tp, un := w.un,
                   absent := w.absent || (!w.oob && (variantAt st.val w.vpos != some v || !childExists st.val w.vpos (i + 1))),
                   last := some a })
+  | .h _ => (st, w)   -- a handle is only meaningful at the head of a chain (`walkH`)
   | .key k =>
     let r := withFieldKeys st w.tpath w.vpos
     match r.2.get k with
@@ -455,6 +461,25 @@ def stepAccOld : St × Walk → Acc → St × Walk := stepAccG true
 def walk (st : St) (c : Chain) : St × Walk := c.foldl stepAcc (st, Walk.root)
 def walkOld (st : St) (c : Chain) : St × Walk := c.foldl stepAccOld (st, Walk.root)
 
+/-- the walk of a chain that may start at a long-lived handle.  Everything the handle does itself goes through
+closures that call the original accessor (`read`, `write`, `track_field`, `get_trigger`): dynamic.  Only its
+`path()` is the one captured at creation, and that is what accessors built **on** the handle extend. -/
+def walkH (st : St) (c : Chain) : St × Walk :=
+  match c with
+  | .h id :: rest =>
+    match st.handles[id]? with
+    | some (hc, fz) =>
+      let r := walk st hc
+      if rest.isEmpty then r else rest.foldl stepAcc (r.1, { r.2 with tpath := fz })
+    | none => walk st rest
+  | _ => walk st c
+
+/-- `StoreField::path()` of the accessor at the end of the chain (what `Patch::patch` starts from) -/
+def pathH (st : St) (c : Chain) (w : Walk) : Path :=
+  match c with
+  | [.h id] => match st.handles[id]? with | some (_, fz) => fz | none => w.tpath
+  | _ => w.tpath
+
 /-- what `track()` of the accessor at the end of the chain tracks, in order: since fix-c16-3 every
 accessor kind tracks `this` of all ancestors, then `this` and `children` of its own path -/
 def Walk.trackList (w : Walk) : List Trig := subfieldTrack w.tpath
@@ -468,6 +493,7 @@ def Walk.trackListOld (w : Walk) : List Trig :=
   | some (.idx _) => defaultTrackOld w.tpath
   | some (.key _) => defaultTrackOld w.tpath
   | some (.var _ _) => subfieldTrack w.tpath
+  | some (.h _) => subfieldTrack w.tpath
 
 /-- what the reader closure of the harness logs after tracking -/
 def Walk.read (w : Walk) (v : Val) : Seen :=
@@ -508,7 +534,7 @@ def setWoken (effs : List Eff) (e : Nat) (b : Bool) : List Eff :=
 
 /-- `track()` of the accessor at the end of `c`, then its untracked read -/
 def trackAndRead (st : St) (e : Nat) (c : Chain) : St × Seen :=
-  let r := walk st c
+  let r := walkH st c
   let st' := { r.1 with subs := r.2.trackList.foldl (fun m t => subscribe m e t) r.1.subs }
   (st', r.2.read st'.val)
 
@@ -516,7 +542,7 @@ def trackAndRead (st : St) (e : Nat) (c : Chain) : St × Seen :=
 the types -/
 def optSplit (st : St) (c : Chain) : Option Nat :=
   (List.range (c.length + 1)).find? fun n =>
-    match (walk st (c.take n)).2.read st.val with
+    match (walkH st (c.take n)).2.read st.val with
     | .val (.node .opt _) => true
     | .val (.node .enumv _) => true
     | _ => false
@@ -543,19 +569,19 @@ def runKind (st : St) (e : Nat) (x : Eff) : St × Seen :=
       let r := trackAndRead st e (x.chain.take n)
       match r.2 with
       | .val _ =>
-        if (walk r.1 (x.chain.take (n + 1))).2.absent then (r.1, .absent)   -- … `None` / another variant
+        if (walkH r.1 (x.chain.take (n + 1))).2.absent then (r.1, .absent)   -- … `None` / another variant
         else trackAndRead r.1 e x.chain                                     -- … the rest is read
       | bad => (r.1, bad)
   | .iterK =>
     -- `into_iter`: `update_keys`, `track_field`, then every item is read through its `AtKeyed`
-    let r0 := walk st x.chain
+    let r0 := walkH st x.chain
     let st1 := updateKeys r0.1 r0.2.tpath r0.2.vpos
     let r := trackAndRead st1 e x.chain
-    readItems e x.chain Acc.key (latestKeys r.1.val (walk r.1 x.chain).2.vpos) r
+    readItems e x.chain Acc.key (latestKeys r.1.val (walkH r.1 x.chain).2.vpos) r
   | .iterU =>
     -- `iter_unkeyed`: `track_field()` (since fix-c16-4; before: `iterUnkeyedTrackOld`), reads the length,
     -- then every element is read through its `AtIndex`
-    let r := walk st x.chain
+    let r := walkH st x.chain
     let st1 := { r.1 with subs := r.2.trackList.foldl (fun m t => subscribe m e t) r.1.subs }
     let seen := r.2.read st1.val
     let len := match seen with | .val v => v.items.length | _ => 0
@@ -593,6 +619,8 @@ inductive Op
   write goes through that handle and the rest of the chain -/
   | set (c : Chain) (v : Val) (era : Option Nat)
   | patch (c : Chain) (v : Val) (era : Option Nat)
+  /-- `Field::from(accessor)` / `ArcField::from(accessor)` kept for later use -/
+  | hnew (c : Chain)
   | kpush (c : Chain) (v : Val)
   | kremove (c : Chain) (i : Nat)
   | kswap (c : Chain) (i j : Nat)
@@ -615,7 +643,7 @@ deriving DecidableEq, Repr
 
 /-- a write of `f old` through the accessor at the end of `c` (`Write::try_write`, then the guard is dropped) -/
 def writeVia (st : St) (c : Chain) (f : Val → Val) : St × Wrote :=
-  let r := walk st c
+  let r := walkH st c
   let st := r.1
   let w := r.2
   if w.absent then (st, .absent)
@@ -637,7 +665,7 @@ def writeVia (st : St) (c : Chain) (f : Val → Val) : St × Wrote :=
 /-- `Patch::patch`: untracked writer, `triggers_for_path(path).notify()` for every changed path, then the
 writer is dropped -/
 def patchVia (st : St) (c : Chain) (new : Val) : St × Wrote :=
-  let r := walk st c
+  let r := walkH st c
   let st := r.1
   let w := r.2
   if w.absent then (st, .absent)
@@ -647,7 +675,7 @@ def patchVia (st : St) (c : Chain) (new : Val) : St × Wrote :=
       match (if w.oob then none else st.val.get pos) with
       | none => ({ st with panicked := true }, .panic)
       | some old =>
-        let pr := patchVal old.untop new.untop w.tpath
+        let pr := patchVal old.untop new.untop (pathH st c w)
         let st := { st with val := st.val.set pos (old.retop pr.1) }
         let st := pr.2.foldl (fun s p => notifyAll s (triggersForPath p)) st
         (notifyAll st w.un, .done)
@@ -672,7 +700,7 @@ def stepOp (st : St) (op : Op) : St × Wrote :=
   | .reader c kind imm pre =>
     let e := st.effs.length
     let st := match pre with
-      | some n => (walk st (c.take n)).1
+      | some n => (walkH st (c.take n)).1
       | none => st
     let st := { st with effs := st.effs ++ [{ chain := c, kind := kind, imm := imm, woken := !imm }] }
     (if imm then runEff st e else st, .done)
@@ -682,6 +710,9 @@ def stepOp (st : St) (op : Op) : St × Wrote :=
       (notifyAll { st with val := v } rootHandleNotify, .done)
     else writeVia st c (fun _ => v)
   | .patch c v _ => patchVia st c v
+  | .hnew c =>
+    let r := walkH st c
+    ({ r.1 with handles := r.1.handles ++ [(c, r.2.tpath)] }, .done)
   | .kpush c v => writeVia st c (fun old => match old with | .node t xs => .node t (xs ++ [v]) | x => x)
   | .kremove c i => writeVia st c (fun old => match old with | .node t xs => .node t (xs.eraseIdx i) | x => x)
   | .kswap c i j => writeVia st c (fun old => match old with | .node t xs => .node t (swapList xs i j) | x => x)
@@ -707,10 +738,17 @@ def logicalGet : Val → Chain → Seen
     match v.items.find? (fun x => x.keyOf = k) with
     | some c => logicalGet c r
     | none => .none
+  | v, .h _ :: r => logicalGet v r   -- chains are expanded (`expandH`) before they get here
   | v, .var n i :: r =>
     match v with
     | .node .enumv (.leaf m :: fs) => if m = n then (match fs[i]? with | some c => logicalGet c r | none => .absent) else .absent
     | _ => .absent
+
+/-- the logical chain: a handle stands for the chain it was made from -/
+def expandH (handles : List (Chain × Path)) (c : Chain) : Chain :=
+  match c with
+  | .h id :: rest => match handles[id]? with | some (hc, _) => hc ++ rest | none => rest
+  | _ => c
 
 def Acc.norm : Acc → Acc
   | .kfld i => .fld i
